@@ -108,12 +108,14 @@ func (o FileOptions) New(fd *descriptorpb.FileDescriptorProto, r Resolver) (prot
 	if f.L1.Path == "" {
 		return nil, errors.New("file path must be populated")
 	}
-	if f.L1.Syntax == protoreflect.Editions &&
-		(fd.GetEdition() < editionssupport.Minimum || fd.GetEdition() > editionssupport.Maximum) &&
-		fd.GetEdition() != descriptorpb.Edition_EDITION_UNSTABLE {
-		// Allow cmd/protoc-gen-go/testdata to use any edition for easier
-		// testing of upcoming edition features.
-		if !strings.HasPrefix(fd.GetName(), "cmd/protoc-gen-go/testdata/") {
+	if f.L1.Syntax == protoreflect.Editions && fd.GetEdition() != descriptorpb.Edition_EDITION_UNSTABLE {
+		maximum := editionssupport.Maximum
+		// Allow cmd/protoc-gen-go/testdata to use any edition known to
+		// Go Protobuf for easier testing of upcoming edition features.
+		if strings.HasPrefix(fd.GetName(), "cmd/protoc-gen-go/testdata/") {
+			maximum = editionssupport.MaximumKnown
+		}
+		if fd.GetEdition() < editionssupport.Minimum || fd.GetEdition() > maximum {
 			return nil, errors.New("use of edition %v not yet supported by the Go Protobuf runtime", fd.GetEdition())
 		}
 	}
